@@ -11,12 +11,12 @@ PROP = {'engine': 'q',
                   'ARRAYITEMS(_smallQueue) is observed from the compiled code and is a parameter of the model',
                   'the std::deque reference model and the canary item types inside harness/q.cpp'],
  'assumptions': ['item counts and indices below 2^32, no allocation failure (B_OUT_OF_MEMORY / B_RESOURCE_LIMIT paths are not modelled)',
-                 'for an owning item type WITHOUT move semantics SwapContents/Plunder between an inline-buffer queue holding items and a heap queue is '
-                 'excluded (finding C16-D3)',
-                 'a queue is prepended to ITSELF (AddHeadMulti(*this) / InsertItemsAt(0, *this)) only with fewer than 2 items or when a reallocation is due '
-                 '(finding C16-D4)',
+                 'the model follows the REPAIRED code for the open findings C16-D3 (SwapContentsAux leaves items alive in the inline buffer), C16-D4 '
+                 '(self-prepend reads shifted items), C16-D5 (InsertItemsAt with a pointer into the own array) and C16-D6 (self-move empties the Queue); '
+                 'their trigger classes are part of the random stream, so on a tree without the repairs the check reports them as KNOWN-FINDING '
+                 '(known_findings.json, corpus/C16/q-known-*.ops)',
                  'the item returned by the no-argument AddTailAndGet()/AddHeadAndGet() of a trivial item type is unspecified until written (documented)'],
- 'rule': 'random op sequences (55 op kinds: single/multi add and remove at both ends, insert/remove/replace at index, self-aliased arguments, swap, reverse, '
+ 'rule': 'random op sequences (66 op kinds, incl. move/copy construction, self-aliased queue and pointer-into-own-array arguments, self-move; four boundary-directed scenario generators: multi-removal landing the head/tail exactly on the physical array end, emptying in every way followed by size-setting growth, transfers between inline-with-head-offset/heap/never-allocated queues, self-aliasing with and without spare slots; single/multi add and remove at both ends, insert/remove/replace at index, self-aliased arguments, swap, reverse, '
          'sort, sorted insert, remove-by-value, de-duplication, EnsureSize with/without set-size/extra/shrink, ShrinkToFit, Normalize, copy, move, '
          'SwapContents, Clear with/without release, IndexOf/LastIndexOf, ==, <, StartsWith/EndsWith) over three Queue registers, for int32, a movable owning '
          'canary and a copy-only owning canary; every op runs on the real Queue and on the Lean ring model and the result lines must agree; after every op the '
@@ -39,6 +39,8 @@ TEXT = {'design_ref': 'DESIGN.md section 4, C16',
          'named _partial).',
  'note': 'Sort and the rotation inside Normalize are abstracted to their functional result (stable sort / rotation).  Findings C16-D1/D2 (EnsureSize with '
          'allowShrink below the item count) are fixed in /repo (97f299d): their trigger class is back in the random stream and the corpus files are regression '
-         'cases.  C16-D3/D4 are open (known_findings.json): their trigger inputs are kept out of the random stream and run as corpus.  Trusted: Lean kernel, '
+         'cases.  C16-D3..D6 (stale inline items after SwapContentsAux, self-prepend, InsertItemsAt with a pointer into the own array, self-move) are open '
+         '(known_findings.json; proposed repairs exist): the model follows the repaired code, their trigger classes are in the random stream and in '
+         'corpus/C16/q-known-*.ops, so the check prints KNOWN-FINDING until the repairs are applied.  Trusted: Lean kernel, '
          'the statement file, the correspondence harness (sampling).  The model is hand-written; a defect the generators never reach and the model does not '
          'share stays invisible.'}
